@@ -11,6 +11,8 @@ From Verif Require Base.PyValue Model.PyMini Model.PrimsApi Model.PrimsShell Gen
 From Verif Require Gen.Settings.
 (* group `shell2` (bld-misc): BQLShell.on_Select and the render adapters behind FORMATS, see the end of this file *)
 From Verif Require Model.PrimsShell2 Gen.SrcShell2 Proofs.SrcShell2.
+(* group `shell3` (bld-shell3): the whole of BQLShell.do_run, see the end of this file *)
+From Verif Require Model.PrimsShell3 Gen.SrcShell3 Proofs.SrcShell3.
 Open Scope list_scope.
 Open Scope Z_scope.
 
@@ -490,3 +492,79 @@ Example C19_source_on_select_example :
   = Ok (sel_flds (enc_ctx (PStr "dcontext")) st (PStr "output"),
         PTuple [PTuple [PStr "desc"; PStr "dformat"]; PList [PInt 10; PInt 20]; PStr "dcontext"; PStr "out"; todict st]).
 Proof. split; [split; eexists; reflexivity|]. vm_compute. reflexivity. Qed.
+
+(* ---- group `shell3` (bld-shell3): the WHOLE of BQLShell.do_run, translated on every run (Gen/SrcShell3.v).
+   (a) C19_source_do_run: for every dict of named queries, everything logged so far and every argument string, the
+   translated method leaves self.queries alone and appends exactly the events of the plan [run_plan] (listing: the
+   sorted names, nothing for an empty dict; `*`: per directive in sorted order "name:", execute(text,
+   default_close_date = ITS date), two empty lines; otherwise shlex.split, "too many arguments", "not found" - nothing
+   run -, or execute of the directive found with ITS date), or raises ValueError where the plan does;
+   (b) C19_run_plan_is_do_run: that plan, with execute = Model/Shell.execute (parse with the default CLOSE date, stop
+   at the first exception), IS Model/Shell.v's do_run.
+   Trusted: the translator (py2mini + src_api + src_shell2 rules S5/S6 + src_shell3 rule S7), PyMini, and the
+   primitives of Model/PrimsShell3.v (shlex.split := Shell.shlex_split, rstrip, sorted := Shell.sort_q, join, dict as
+   its item list); that DispatchingShell.execute runs parse + dispatch is C19_source_parse_default_close / on_select. ---- *)
+Theorem C19_source_do_run : forall call_ref msg (qs : list Model.Shell.query_directive) (evs : list Model.PyMini.pv)
+    (arg : list Z),
+  Model.PyMini.call_method call_ref (Model.PrimsShell3.prim_shell3 call_ref msg) Gen.SrcShell3.shell_do_run
+    (Model.PrimsShell3.run3_flds qs evs) [Model.PrimsShell.PS arg] =
+  Model.PyMini.bind (Proofs.SrcShell3.run_plan qs arg) (fun p =>
+    Model.PyMini.Ok (Model.PrimsShell3.run3_flds qs (evs ++ map Proofs.SrcShell3.enc_action p), Model.PyMini.PNone)).
+Proof. exact Proofs.SrcShell3.do_run_src. Qed.
+Print Assumptions C19_source_do_run.
+
+Theorem C19_run_plan_is_do_run : forall (W : Model.Shell.World) st arg,
+  Model.Shell.do_run W st arg =
+  match Proofs.SrcShell3.run_plan (Model.Shell.named_queries W) arg with
+  | Model.PyMini.Ok p => Proofs.SrcShell3.interp W st p
+  | Model.PyMini.Exc _ =>
+      match Model.Shell.shlex_split (Model.Shell.rstrip_by Model.Shell.run_strip arg) with
+      | Model.Shell.ShNoQuote => [Model.Shell.ERaise (Model.Shell.XValue (Model.Shell.s2z "No closing quotation"))]
+      | Model.Shell.ShNoEscaped => [Model.Shell.ERaise (Model.Shell.XValue (Model.Shell.s2z "No escaped character"))]
+      | Model.Shell.ShOk _ =>
+          [Model.Shell.ERaise (Model.Shell.XValue (Model.Shell.s2z "not enough values to unpack (expected at least 1, got 0)"))]
+      end
+  | Model.PyMini.Stuck => []
+  end.
+Proof. exact Proofs.SrcShell3.run_plan_model. Qed.
+Print Assumptions C19_run_plan_is_do_run.
+
+(* a run: `.run  "b c" ;` on the queries a, "b c" (dates 5 and 7) executes "b c"'s text with close date 7 *)
+Example C19_source_do_run_example :
+  Proofs.SrcShell3.run_plan
+    [ {| q_name := [97]; q_text := [120]; q_date := 5 |}; {| q_name := [98; 32; 99]; q_text := [121]; q_date := 7 |} ]
+    [34; 98; 32; 99; 34; 32; 59] =
+  Model.PyMini.Ok [Proofs.SrcShell3.AExec {| q_name := [98; 32; 99]; q_text := [121]; q_date := 7 |}].
+Proof. vm_compute. reflexivity. Qed.
+
+(* BQLShell.do_reload, translated on every run (Gen/SrcShell3.shell_do_reload): nothing without a file name; otherwise
+   the log gets, in this order, context.errors.clear(), context.options.clear(), context.attach("beancount:" + filename)
+   and _extract_queries(<entries of the entries table>) (rule S8/S6 events: the connection is emptied BEFORE it is
+   re-attached and the named queries are re-read from the NEW entries), print_errors(errors, file=sys.stderr) is
+   called exactly when the connection has errors and the shell was not started with --no-errors (Model/Shell.do_reload's
+   `if quiet then [] else [EText Stderr r]`), print_statistics exactly in interactive mode.  self.context is read as
+   the connection AFTER the three logged effects (their mutation of the connection is outside PyMini's values). *)
+Theorem C19_source_do_reload : forall call_ref msg (f : option (list Z)) (ents opts outf arg : Model.PyMini.pv)
+    (errs evs : list Model.PyMini.pv) (quiet inter : bool),
+  Model.PyMini.call_method call_ref (Model.PrimsShell3.prim_shell3 call_ref msg) Gen.SrcShell3.shell_do_reload
+    (Proofs.SrcShell3.reload_flds f (Proofs.SrcShell3.enc_conn ents opts errs) quiet inter outf evs) [arg] =
+  match f with
+  | None | Some [] =>
+      Model.PyMini.Ok (Proofs.SrcShell3.reload_flds f (Proofs.SrcShell3.enc_conn ents opts errs) quiet inter outf evs,
+                       Model.PyMini.PNone)
+  | Some fn =>
+      Model.PyMini.bind
+        (match errs with
+         | [] => Model.PyMini.Ok Model.PyMini.PNone
+         | _ => if quiet then Model.PyMini.Ok Model.PyMini.PNone
+                else Model.PyMini.do_call call_ref (Model.PyMini.PRef Proofs.SrcShell3.kPrintErrors)
+                       [Model.PyMini.PList errs; Model.PyMini.PRef Proofs.SrcShell3.kStderr]
+         end) (fun _ =>
+      Model.PyMini.bind
+        (if inter then Model.PyMini.do_call call_ref (Model.PyMini.PRef Proofs.SrcShell3.kStatistics) [ents; opts; outf]
+         else Model.PyMini.Ok Model.PyMini.PNone) (fun _ =>
+      Model.PyMini.Ok (Proofs.SrcShell3.reload_flds f (Proofs.SrcShell3.enc_conn ents opts errs) quiet inter outf
+                         (evs ++ Proofs.SrcShell3.reload_events fn ents), Model.PyMini.PNone)))
+  end.
+Proof. exact Proofs.SrcShell3.do_reload_src. Qed.
+Print Assumptions C19_source_do_reload.
